@@ -52,6 +52,10 @@ def run(ctx):
             short = c.name.split("::")[-1]
             if short.startswith("checked_") and ("i64" in c.name or "num::<impl i64>" in c.name):
                 n_checked += 1
+            if short.startswith(("wrapping_", "overflowing_", "unchecked_")) and "num::<impl i64>" in c.name and root not in EXCEPT_FN:
+                ctx.instance("C23.1", "%s: %s on i64" % (b.id, short))
+                ctx.oblige(False, "C23.1", "%s:%s#%d" % (b.id, short, c.ordinal),
+                           "`%s` in the evaluator's numeric core: integer overflow wraps silently instead of following the checked / widen-to-float rule" % short, c.loc())
         k = 0
         for bi, blk in enumerate(b.blocks):
             if blk["c"]:
